@@ -77,6 +77,38 @@ func (m *Model) Keyed(key []byte, id string, p Program, ts int64) {
 	m.add(ExpEv{Ev: Ev{Kind: 'K', Key: key, ID: id, T: ts}, Group: m.group}, "keyed event")
 }
 
+// KeyedUnordered: several keyed events were delivered concurrently (senders released from alignment
+// at the same instant); their relative order is free and follows the observed one.
+func (m *Model) KeyedUnordered(evs []Ev, progs []Program) {
+	m.group++
+	g := m.group
+	remaining := map[string]int{}
+	for i, e := range evs {
+		m.Progs[e.ID] = progs[i]
+		remaining[e.ID] = i
+	}
+	for len(remaining) > 0 {
+		pick := -1
+		if m.Observe != nil {
+			if ev := m.Observe(m.added); ev != nil && ev.Kind == 'K' {
+				if i, ok := remaining[ev.ID]; ok {
+					pick = i
+				}
+			}
+		}
+		if pick < 0 {
+			for i, e := range evs {
+				if _, ok := remaining[e.ID]; ok {
+					pick = i
+					break
+				}
+			}
+		}
+		delete(remaining, evs[pick].ID)
+		m.add(ExpEv{Ev: evs[pick], Group: g}, "keyed event (released from alignment)")
+	}
+}
+
 // Watermark: sender s reported t.
 func (m *Model) Watermark(s string, t int64) {
 	m.Vector[s] = t
